@@ -258,12 +258,13 @@ impl Codec for Ctx {
         // data must be codable; order 1/2: every byte in every context
         let must = if e.order() == HuffmanOrder::Order0 { present(&self.t) } else { all256 };
         let mut pick: Vec<usize> = vec![];
-        if all || trees.len() <= 4 {
+        if all || trees.len() <= 2 {
             pick = (0..trees.len()).collect();
         } else {
             let mut r = Rng::new(seed).derive("ctxpick");
             pick.push(0);
-            while pick.len() < 4 {
+            let want = if all { usize::MAX } else if seed & (1 << 40) != 0 { 4 } else { 2 };
+            while pick.len() < want.min(trees.len()) {
                 let k = 1 + r.below(trees.len() as u64 - 1) as usize;
                 if !pick.contains(&k) {
                     pick.push(k);
@@ -840,6 +841,20 @@ fn sessions(a: &Args, subj_index: usize, heavy: bool) -> Vec<Session> {
         out.push(Session { klass: "edge".into(), mode: "superset", train: t.clone(), payloads: vec![vec![], vec![t[0]], vec![t[1], t[1]], t[..3].to_vec()] });
     }
 
+    // --- the recorded witnesses of the known findings (smallest inputs of their shape), for every subject
+    {
+        let abc = |n: usize| {
+            let mut v = vec![b'a'];
+            v.extend(std::iter::repeat(b'b').take(n));
+            v.push(b'c');
+            v
+        };
+        for x in [abc(8190), abc(5460), abc(5459), b"ab".repeat(50), b"ab".repeat(49)] {
+            out.push(Session { klass: "witness".into(), mode: "same", train: x.clone(), payloads: vec![x] });
+        }
+        out.push(Session { klass: "witness".into(), mode: "other", train: b"0123456789ABCDEF".to_vec(), payloads: vec![b"zzzzzz0123456789".to_vec()] });
+    }
+
     // --- text-like, 64 KiB random, 64 KiB highly compressible (thorough: 1 MiB, 4 MiB)
     {
         let mut r = root.derive("big");
@@ -929,7 +944,12 @@ fn run_subject(a: &Args, name: &str) {
                 Ok(Ok(info)) => {
                     st.trains_ok += 1;
                     tr.ev(json!({"op":"train","c":name,"d":digest(&s.train),"ok":true,"err":"","info":info}));
-                    match guard(|| codec.mech(name, a.seed ^ si as u64, all_ctx)) {
+                    // the 256-symbol code tables of the contextual coders cost TLC ~40 ms each: quick judges the baseline
+                    // tree and one sampled context tree on a rotating quarter of the sessions, thorough four trees on all
+                    let ctx_like = fam == "ctx" || fam == "ctxil";
+                    let want_mech = !ctx_like || a.thorough() || (si + idx) % 4 == 0;
+                    let mseed = ((a.seed ^ si as u64) & !(1 << 40)) | if a.thorough() { 1 << 40 } else { 0 };
+                    match guard(|| if want_mech { codec.mech(name, mseed, all_ctx) } else { vec![] }) {
                         Ok(evs) => {
                             for e in evs {
                                 if e["op"] == "table" {
